@@ -47,3 +47,25 @@ Example C10_roundtrip_instance :
   parse_fields (serialize_annotations [(s "transfer", AList [s "full"]); (s "element-type", AList [s "utf8"; s "gint"]); (s "skip", AList [])])
   = Some ([(s "transfer", AList [s "full"]); (s "element-type", AList [s "utf8"; s "gint"]); (s "skip", AList [])], [], false).
 Proof. vm_compute. reflexivity. Qed.
+
+(* a parameter or tag field without annotations is its description — also when the description
+   begins with a colon ("::notify is emitted ...", refuted before fix 4782904) *)
+Theorem C10_description_without_annotations : forall ws d,
+  forallb is_space ws = true -> desc_ok d = true -> parse_fields (ws ++ d) = Some ([], d, false).
+Proof. exact description_only. Qed.
+Print Assumptions C10_description_without_annotations.
+
+(* annotations, the separating colon and a description, as the project's writer lays them out:
+   the same annotations come back, the description is what follows the colon, nothing is reported *)
+Theorem C10_annotations_and_description : forall anns d,
+  Forall wf_ann anns -> NoDup (map fst anns) -> anns <> [] -> desc_ok d = true ->
+  parse_fields (serialize_annotations (map (fun a => (fst a, AList (snd a))) anns) ++ 58 :: sp :: d)
+  = Some (map (fun a => (fst a, AList (snd a))) anns, sp :: d, false).
+Proof. exact fields_with_description. Qed.
+Print Assumptions C10_annotations_and_description.
+
+Example C10_description_instance :
+  desc_ok (s "::notify is emitted (always)") = true
+  /\ parse_fields (s " ::notify is emitted (always)") = Some ([], s "::notify is emitted (always)", false)
+  /\ parse_fields (s "(transfer full) (nullable): : the value") = Some ([(s "transfer", AList [s "full"]); (s "nullable", AList [])], s " : the value", false).
+Proof. vm_compute. repeat split; reflexivity. Qed.
